@@ -7,6 +7,18 @@ From Mds Require Import Gen.StreeConst Gen.StreeNode Stree.StreeModel Stree.Stre
 Local Open Scope Z_scope.
 
 (* ------------------------------------------------------------------ generated facts *)
+(* The sign tests on a comparison result are proved extensionally, so an equivalent way of writing
+   them in the Go source (cmp >= 1, 0 > cmp, cmp <= -1 ...) keeps the proofs; a test that differs on
+   some integer (cmp == -1, cmp > 1 ...) does not. *)
+Ltac zb :=
+  repeat match goal with
+  | |- context [Z.ltb ?a ?b] => destruct (Z.ltb_spec a b)
+  | |- context [Z.leb ?a ?b] => destruct (Z.leb_spec a b)
+  | |- context [Z.gtb ?a ?b] => destruct (Z.gtb_spec a b)
+  | |- context [Z.geb ?a ?b] => destruct (Z.geb_spec a b)
+  | |- context [Z.eqb ?a ?b] => destruct (Z.eqb_spec a b)
+  end; cbn [negb andb orb]; try reflexivity; try lia.
+
 Lemma gen_node_size l r : node_size l r = 1 + l + r.                  Proof. reflexivity. Qed.
 Lemma gen_rot_count c : rot_count c = c.                              Proof. reflexivity. Qed.
 Lemma gen_step0 : v2t_step0 = 1.                                      Proof. reflexivity. Qed.
@@ -36,26 +48,26 @@ Qed.
 
 Lemma gen_ins_leaf_over l : ins_leaf_over l = (l <? 0).               Proof. reflexivity. Qed.
 Lemma gen_ins_leaf_size : ins_leaf_size = 1.                          Proof. reflexivity. Qed.
-Lemma gen_ins_lt c : ins_lt c = (c <? 0).                             Proof. reflexivity. Qed.
-Lemma gen_ins_gt c : ins_gt c = (c >? 0).                             Proof. reflexivity. Qed.
+Lemma gen_ins_lt c : ins_lt c = (c <? 0). Proof. unfold ins_lt. zb. Qed.
+Lemma gen_ins_gt c : ins_gt c = (c >? 0). Proof. unfold ins_gt. zb. Qed.
 Lemma gen_ins_eq_size : ins_eq_size = 0.                              Proof. reflexivity. Qed.
 Lemma gen_ins_seeking s : ins_seeking s = (s >? 0).                   Proof. reflexivity. Qed.
 Lemma gen_ins_root_size a s : ins_root_size a s = a + 1 + s.          Proof. reflexivity. Qed.
 Lemma gen_ins_keep_size s : ins_keep_size s = s.                      Proof. reflexivity. Qed.
 Lemma gen_ins_rewrite_size s : ins_rewrite_size s = s.                Proof. reflexivity. Qed.
 Lemma gen_ins_goat_size : ins_goat_size = 0.                          Proof. reflexivity. Qed.
-Lemma gen_rem_lt c : rem_lt c = (c <? 0).                             Proof. reflexivity. Qed.
-Lemma gen_rem_gt c : rem_gt c = (c >? 0).                             Proof. reflexivity. Qed.
+Lemma gen_rem_lt c : rem_lt c = (c <? 0). Proof. unfold rem_lt. zb. Qed.
+Lemma gen_rem_gt c : rem_gt c = (c >? 0). Proof. unfold rem_gt. zb. Qed.
 Lemma gen_rem_size s : rem_size s = s - 1.                            Proof. reflexivity. Qed.
 Lemma gen_rem_rewrite_size s : rem_rewrite_size s = s.                Proof. reflexivity. Qed.
-Lemma gen_get_lt c : get_lt c = (c <? 0).                             Proof. reflexivity. Qed.
-Lemma gen_get_gt c : get_gt c = (c >? 0).                             Proof. reflexivity. Qed.
-Lemma gen_path_lt c : path_lt c = (c <? 0).                           Proof. reflexivity. Qed.
-Lemma gen_path_gt c : path_gt c = (c >? 0).                           Proof. reflexivity. Qed.
+Lemma gen_get_lt c : get_lt c = (c <? 0). Proof. unfold get_lt. zb. Qed.
+Lemma gen_get_gt c : get_gt c = (c >? 0). Proof. unfold get_gt. zb. Qed.
+Lemma gen_path_lt c : path_lt c = (c <? 0). Proof. unfold path_lt. zb. Qed.
+Lemma gen_path_gt c : path_gt c = (c >? 0). Proof. unfold path_gt. zb. Qed.
 Lemma gen_after_start n : after_start n = n - 1.                      Proof. reflexivity. Qed.
 Lemma gen_after_more i : after_more i = (i >=? 0).                    Proof. reflexivity. Qed.
 Lemma gen_after_next i : after_next i = i - 1.                        Proof. reflexivity. Qed.
-Lemma gen_after_skip c : after_skip c = (c <? 0).                     Proof. reflexivity. Qed.
+Lemma gen_after_skip c : after_skip c = (c <? 0). Proof. unfold after_skip. zb. Qed.
 Lemma gen_new_beta_bad b : new_beta_bad b = ((b <? 0) || (b >? 1000)). Proof. reflexivity. Qed.
 Lemma gen_new_has_keys n : new_has_keys n = negb (n =? 0).            Proof. reflexivity. Qed.
 Lemma gen_new_size n : new_size n = n.                                Proof. reflexivity. Qed.
